@@ -13,7 +13,7 @@ RULE = ("DRYREAL: at every step the world (directory + FakeRepo) is forked; fork
 ASSUMPTIONS = ["ref.udiff is the trusted applier", "mixed line endings are outside the statement's quantifier"]
 COMPONENTS = {"bumpver cli update [--dry], rewrite.diff": "real", "files": "real scratch directories (two forks)",
               "VCS": "none or FakeRepo", "clock": "simulated"}
-CAMPAIGNS = [DryReal("C13", quick=7000, thorough=300000)]
+CAMPAIGNS = [DryReal("C13", quick=10000, thorough=300000)]
 
 
 def sanity_gate(tier, total):
